@@ -290,7 +290,64 @@ def codec_args(V, accel, dx, dy, bits, partk, depthwise):
             ("sub-kernel height shrinks with the y dilation, width with the x dilation", (a[7], a[8]) == (8 // dy, 8 // dx))]
 
 
-FUNCS = {"codec_args": codec_args, "encode": encode, "cache": cache, "bias": bias, "bias_rejects": bias_rejects}
+def weight_ranges(V, accel, buffered, standalone):
+    """create_weights(): the WEIGHT/SCALE ranges handed to the register generator for one depth slice, in the four tensor configurations
+    (weights read straight from the encoded tensor or from an SRAM buffer; scales inside the weight tensor or in a stand-alone scale tensor,
+    which is what the weight cache produces when two operators share weights but not biases).  Encoded ranges are symbolic."""
+    import ethosu.vela.high_level_command_to_npu_op as h2n
+    import ethosu.vela.weight_compressor as wc
+    from ethosu.vela.high_level_command_stream import Box
+    from ethosu.vela.tensor import MemType
+    from harness.c04 import arch_for
+
+    arch = arch_for(accel)
+    d0 = 16
+
+    def rng(tag):
+        r = wc.WeightRange()
+        r.offset = V.int("offset_" + tag, 0, 1 << 30)
+        r.scale_bytes = V.int("scale_bytes_" + tag, 10, 1 << 12)
+        r.weight_offset = V.int("weight_offset_" + tag, 0, 1 << 12)
+        r.weight_bytes = V.int("weight_bytes_" + tag, 1, 1 << 20)
+        # layout of a core's sub-stream as the encoder lays it out (lemma `encode`): scale records, padding to 16, weight stream (16-byte multiple)
+        V.assume(z3.And(L(r.offset) % 16 == 0, L(r.weight_offset) % 16 == 0, L(r.weight_offset) >= L(r.scale_bytes), L(r.weight_offset) < L(r.scale_bytes) + 16,
+                        L(r.weight_bytes) % 16 == 0))
+        return r
+
+    src_ranges = {wc.WeightKey(c, d0): rng("w%d" % c) for c in range(arch.ncores)}
+    src = _Obj(address=V.int("src_base", 0, 1 << 30), encoded_ranges=src_ranges, mem_type=MemType.Permanent_NPU, src_tensor=None, name="w")
+    wt = src
+    if buffered:
+        wt = _Obj(address=V.int("buf_base", 0, 1 << 30), mem_type=V.choice("buf_mem", [MemType.Scratch_fast, MemType.Scratch]), src_tensor=src, name="buf",
+                  encoded_ranges={})
+    st = None
+    if standalone:
+        st = _Obj(address=V.int("scale_base", 0, 1 << 30), mem_type=V.choice("scale_mem", [MemType.Permanent_NPU, MemType.Scratch]), src_tensor=None, name="s",
+                  encoded_ranges={wc.WeightKey(c, d0): rng("s%d" % c) for c in range(arch.ncores)})
+    box = Box([0, 0, 0, d0], [1, 1, 1, d0 + 16])
+    with core.shims((h2n, {"int": core.IntShim})):
+        ws, bs = h2n.create_weights(wt, box, st, arch)
+    cl = [("one weight and one scale range per core", len(ws) == arch.ncores and len(bs) == arch.ncores)]
+    w_region = h2n.get_region(wt.mem_type, arch)  # region mapping itself: C02 `regions`
+    up16 = lambda x: ((L(x) + 15) / 16) * 16  # noqa
+    core_off = L(0)
+    for c, (w, b) in enumerate(zip(ws, bs)):
+        r = src_ranges[wc.WeightKey(c, d0)]
+        base = L(wt.address) + (core_off if buffered else L(r.offset))
+        cl.append(("core %d: weights are read from the tensor that holds them (region, address of the core's sub-stream + weight offset, 16-byte length)" % c,
+                   z3.And(L(w.region) == w_region, L(w.address) == base + L(r.weight_offset), L(w.length) == up16(r.weight_bytes))))
+        if standalone:
+            sr = st.encoded_ranges[wc.WeightKey(c, d0)]
+            cl.append(("core %d: stand-alone scales are read from the scale tensor's own region and range" % c,
+                       z3.And(L(b.region) == h2n.get_region(st.mem_type, arch), L(b.address) == L(st.address) + L(sr.offset), L(b.length) == up16(sr.scale_bytes))))
+        else:
+            cl.append(("core %d: combined scales are read from the start of the core's sub-stream" % c,
+                       z3.And(L(b.region) == w_region, L(b.address) == base, L(b.length) == up16(r.scale_bytes))))
+        core_off = core_off + L(r.weight_offset) + L(r.weight_bytes)  # in the buffer the cores' sub-streams follow each other (create_dma_op copies them so)
+    return cl
+
+
+FUNCS = {"weight_ranges": weight_ranges, "codec_args": codec_args, "encode": encode, "cache": cache, "bias": bias, "bias_rejects": bias_rejects}
 
 
 def instances(tier, seed):
@@ -309,6 +366,11 @@ def instances(tier, seed):
             for bits, partk, dw in ((8, 0, 0), (16, 1, 0), (8, 0, 1)):
                 out.append(dict(key="codec_args/%s/d%dx%d/b%d_p%d_dw%d" % (accel, dx, dy, bits, partk, dw), fn="codec_args",
                                 params=dict(accel=accel, dx=dx, dy=dy, bits=bits, partk=partk, depthwise=dw)))
+    for accel in ("Ethos_U55_128", "Ethos_U65_512"):
+        for buffered in (0, 1):
+            for standalone in (0, 1):
+                out.append(dict(key="weight_ranges/%s/buffered%d_standalone%d" % (accel, buffered, standalone), fn="weight_ranges",
+                                params=dict(accel=accel, buffered=buffered, standalone=standalone)))
     out.append(dict(key="bias/pack", fn="bias", params={}))
     for w in ("bias_hi", "bias_lo", "scale", "shift", "neg_scale"):
         out.append(dict(key="bias_rejects/%s" % w, fn="bias_rejects", params=dict(which=w)))
